@@ -92,7 +92,7 @@ def gen_case(rng, force_affine=None):
         typ = rng.choice(["Real", "Real", "Real", "Integer", "Boolean"])
         if lst == "states":
             typ = "Real"
-        dims = rng.choice([[], [], [], [rng.randint(2, 3)], [2, rng.randint(2, 3)]])
+        dims = rng.choice([[], [], [], [rng.randint(2, 3)], [2, rng.randint(2, 3)], [rng.randint(2, 3), 1]])
         if typ != "Real":
             dims = rng.choice([[], [], [2]])
         name = "%s%d" % ("xyuqk"[["states", "alg_states", "inputs", "parameters", "constants"].index(lst)], i)
@@ -125,6 +125,10 @@ def gen_case(rng, force_affine=None):
                         else:
                             attrs[a] = ("arr", [gen_attr_expr(rng, params, "literal") for _ in range(n)])
                             tags.add("attr:array-literal")
+                    elif dims[1] == 1 and rng.random() < 0.6:
+                        # an n-by-1 variable whose attribute is a column of parameter expressions
+                        attrs[a] = ("arr", [("arr", [gen_attr_expr(rng, params, kl if kl != "nonaffine" else "affine")]) for _ in range(dims[0])])
+                        tags.add("attr:n-by-1-array-with-parameter-refs")
                     else:
                         attrs[a] = ("arr", [("arr", [gen_attr_expr(rng, params, "literal") for _ in range(dims[1])])
                                             for _ in range(dims[0])])
